@@ -190,12 +190,70 @@ def r3_only_update_writes(ctx):
     ctx.check(not users, "C07.R3", BEST, "value-mut-users", "BestIndividual's inner value is overwritten through the registry's value accessors in %s" % sorted({f.key for f, b, t in users}))
 
 
+def _archive_component_runner(ctx):
+    """run(cap, arch, cur, ranks) -> (problem or None, tags the archive holds afterwards): the real ElitistArchiveUpdate::execute on the
+    real population stack (another population, holding the best individual of all, lies underneath) and the typed store"""
+    import statemodel
+    from c04 import StackModel
+    from collmodel import install
+    F = ctx.facts
+    up = F.method("mahf::components::archive::ElitistArchiveUpdate", "execute", "mahf::components::Component")
+    POP = "mahf::state::common::Populations"
+    sf = F.field_index(POP, "stack")
+    ki = F.field_index("mahf::components::archive::ElitistArchiveUpdate", "num_elitists")
+
+    def run(cap, arch, cur, ranks):
+        def orc(interp, env, f, args, t, bb, path):
+            if f.get("key", "") in ("mahf::state::State::populations_mut", "mahf::state::State::populations"):
+                return Sym("populations", {sf: Sym("stack")})
+            return TOP
+        cellv = Agg("adt", ARCH, "ElitistArchive", [Vec("arch")])
+        store = statemodel.Store(F, levels=1, auto=lambda ty, cellv=cellv: {0: cellv} if ty.startswith(ARCH + "<") or ty == ARCH else None)
+        it = install(Interp(up.body, chain(orc, store, StackModel(sf), coll_oracle, std_oracle), [Sym("self", {ki: cap}), Sym("problem"), Sym("state")], facts=F,
+                            inline=lambda kk: kk.startswith(POP + "::") or statemodel.inline(kk) or INLINE(kk), max_visits=12))
+        rk = dict(ranks)
+        rk["o:b0"] = -5
+        it.init_state = {"next_vec": 0, "stack": (Vec("below"), Vec("cur")), "rank": rk,
+                         "heap": {"below": (ind("b0"),), "cur": tuple(cur), "arch": tuple(arch)}}
+        store.install(it)
+        paths = it.run()
+        if len(paths) != 1 or paths[0].end != "return" or not (isinstance(paths[0].ret, Agg) and paths[0].ret.variant == "Ok"):
+            return "does not complete on a single path (%s)" % [(p.end, str(p.ret)[:30]) for p in paths], None
+        p = paths[0]
+        tys = [ty for ty in store.types() if ty.startswith(ARCH)]
+        after = store.value(p, tys[0], 0) if tys else cellv
+        v = after.fields[0] if isinstance(after, Agg) and after.fields else None
+        got = [otag(x) for x in p.mstate["heap"].get(getattr(v, "vid", None), ())]
+        if [getattr(x, "vid", None) for x in p.mstate.get("stack", ())] != ["below", "cur"] or [otag(x) for x in p.mstate["heap"].get("cur", ())] != [otag(x) for x in cur]:
+            return "changes the population stack", got
+        return None, got
+    return up, run
+
+
 def r5_archive(ctx):
     F = ctx.facts
-    fn = F.fn(ARCH + "::update")
+    fn = F.fn_opt(ARCH + "::update")
     bad = []
     n = 0
     NA = 4 if ctx.tier == "thorough" else 3
+    if fn is None:
+        # the archive's (private) update method is written out in the component: the same scenarios, through the component
+        fn, run = _archive_component_runner(ctx)
+        for na in range(0, NA):
+            for npop in range(0, 3):
+                for order in (weak_orderings(na + npop) if na + npop else [()]):
+                    for cap in range(0, NA + 1):
+                        arch_idx = sorted(range(na), key=lambda i: order[i])
+                        n += 1
+                        problem, after = run(cap, [ind(i) for i in arch_idx], [ind(na + j) for j in range(npop)], {"o:%d" % i: r for i, r in enumerate(order)})
+                        if problem:
+                            bad.append((na, npop, order, cap, problem))
+                            continue
+                        got = sorted(order[int(x[2:])] for x in after if x and x[2:].isdigit())
+                        want = sorted(order)[:cap]
+                        if got != want or len(after) != len(want):
+                            bad.append((na, npop, order, cap, "keeps objective ranks %s; the %d best of everything shown are %s" % (got, cap, want)))
+        NA = 0
     for na in range(0, NA):
         for npop in range(0, 3):
             for order in (weak_orderings(na + npop) if na + npop else [()]):
@@ -280,41 +338,16 @@ def r5_archive(ctx):
     r7_individual_equality(ctx, "C07.R5")
     # the update component shows the CURRENT population (the top one; another population lies underneath) to the state's
     # archive, with its own capacity, exactly once - evaluated on the real population stack and the typed store
-    import statemodel
-    from c04 import StackModel
-    from collmodel import install, load
-    up = F.method("mahf::components::archive::ElitistArchiveUpdate", "execute", "mahf::components::Component")
-    POP = "mahf::state::common::Populations"
-    sf = F.field_index(POP, "stack")
-    ki = F.field_index("mahf::components::archive::ElitistArchiveUpdate", "num_elitists")
+    up, run = _archive_component_runner(ctx)
     bad = []
     for cap in (0, 1, 2, 4):
-        def orc(interp, env, f, args, t, bb, path):
-            if f.get("key", "") in ("mahf::state::State::populations_mut", "mahf::state::State::populations"):
-                return Sym("populations", {sf: Sym("stack")})
-            return TOP
-        cellv = Agg("adt", ARCH, "ElitistArchive", [Vec("arch")])
-        store = statemodel.Store(F, levels=1, auto=lambda ty, cellv=cellv: {0: cellv} if ty.startswith(ARCH + "<") or ty == ARCH else None)
-        it = install(Interp(up.body, chain(orc, store, StackModel(sf), coll_oracle, std_oracle), [Sym("self", {ki: cap}), Sym("problem"), Sym("state")], facts=F,
-                            inline=lambda kk: kk.startswith(POP + "::") or statemodel.inline(kk) or INLINE(kk), max_visits=12))
         # ranks: the population underneath holds the best individual of all - it must not be shown to the archive
-        it.init_state = {"next_vec": 0, "stack": (Vec("below"), Vec("cur")), "rank": {"o:b0": -5, "o:0": 0, "o:e0": 1, "o:1": 2},
-                         "heap": {"below": (ind("b0"),), "cur": (ind(0), ind(1)), "arch": (ind("e0"),)}}
-        store.install(it)
-        paths = it.run()
-        if len(paths) != 1 or paths[0].end != "return" or not (isinstance(paths[0].ret, Agg) and paths[0].ret.variant == "Ok"):
-            bad.append((cap, "does not complete on a single path (%s)" % [(p.end, str(p.ret)[:30]) for p in paths]))
-            continue
-        p = paths[0]
-        tys = [ty for ty in store.types() if ty.startswith(ARCH)]
-        after = store.value(p, tys[0], 0) if tys else cellv
-        v = after.fields[0] if isinstance(after, Agg) and after.fields else None
-        got = [otag(x) for x in p.mstate["heap"].get(getattr(v, "vid", None), ())]
+        problem, got = run(cap, [ind("e0")], [ind(0), ind(1)], {"o:0": 0, "o:e0": 1, "o:1": 2})
         want = ["o:0", "o:e0", "o:1"][:cap]
-        if sorted(map(str, got)) != sorted(want):
+        if problem:
+            bad.append((cap, problem))
+        elif sorted(map(str, got)) != sorted(want):
             bad.append((cap, "leaves the archive holding %s; the %d best of the old archive [o:e0] and the CURRENT population [o:0, o:1] (objective order o:0 < o:e0 < o:1; o:b0, in the population underneath, is better than all) are %s" % (got, cap, want)))
-        elif [getattr(x, "vid", None) for x in p.mstate.get("stack", ())] != ["below", "cur"] or [otag(x) for x in p.mstate["heap"].get("cur", ())] != ["o:0", "o:1"]:
-            bad.append((cap, "changes the population stack"))
     ctx.check(not bad, "C07.R5", up.key, "shows-current-population", "capacity %s: the update component %s" % (bad[0] if bad else ("", "")), loc=up.loc())
 
 
